@@ -9,7 +9,8 @@ META = {
     "functions": SIM_FUNCTIONS,
     "stubs": STUB_NOTES,
     "assumptions": profiles.ASSUMPTIONS,
-    "bounds": profiles.BOUNDS_TEXT,
+    "bounds": {"quick": {"tasks": "<= 3 over all four kinds, 4 in FS/SS chains and diamonds", "work": "0..3 (0..4 in 2-task profiles)", "workers": "<= 3", "horizon max_time": "<= 12"},
+               "thorough": {"tasks": "<= 4 over all four kinds", "work": "0..4", "workers": "<= 3", "horizon max_time": "<= 16"}},
     "outside": profiles.OUTSIDE,
 }
 REQUIRED_COVERS = {"any": ["edge:FS", "edge:SS", "edge:FF", "edge:SF", "same-step-zero", "absence-working-shown-ready"]}
